@@ -179,6 +179,11 @@ macro_rules! define_interposers {
             $crate::raw::kill(pid, sig)
         }
         #[no_mangle]
+        pub unsafe extern "C" fn killpg(pgrp: __c_int, sig: __c_int) -> __c_int {
+            // (glibc's killpg does not go through the `kill` symbol)
+            kill(-pgrp, sig)
+        }
+        #[no_mangle]
         pub unsafe extern "C" fn pipe(fds: *mut __c_int) -> __c_int {
             if let Some(f) = $crate::hooks::hooks().pipe {
                 if let Some(r) = f(fds, 0) {
